@@ -167,7 +167,7 @@ def run(ctx: Ctx) -> None:
     sel_idx = [i for i, t in enumerate(traces) if t["kind"] == "select"]
     twins = [i for i in rank_idx if traces[i]["share"]]
     big = [i for i in rank_idx if len(traces[i]["P"]) > 4]
-    m = 60 if ctx.quick else 300
+    m = 60 if ctx.quick else 150
     sample, origin = [], []
     for i in sorted(set(rank_idx[:m] + rank_idx[-m:] + twins[:2 * m] + big[:m // 2])):
         evs = traces[i]["ev"]
@@ -185,8 +185,12 @@ def run(ctx: Ctx) -> None:
         ctx.notes["bulk_run"] = "skipped: the unmasked sample already shows new violations"
     else:
         # stage 2: everything, open findings masked by their TLA+ class
-        chunk = max(500, -(-len(traces) // 3)) if ctx.quick else 3000
-        _report(ctx, traces, behs, ctx.validate("RankingTrace", traces, env=masks, chunk=chunk))
+        # (shuffled so that the long select traces are spread over the chunks)
+        order = list(range(len(traces)))
+        ctx.rng("bulk").shuffle(order)
+        chunk = max(500, -(-len(traces) // (3 if ctx.quick else 6)))
+        _report(ctx, [traces[i] for i in order], [behs[i] for i in order],
+                ctx.validate("RankingTrace", [traces[i] for i in order], env=masks, chunk=chunk))
     for m, sig in (("C14_MASK_REMAINDER", SIG_REMAINDER), ("C14_MASK_TWINS", SIG_TWINS)):
         if masks[m] == "1" and sig not in sigs:
             ctx.drift.append(f"open finding {sig} was not reproduced by the unmasked sample")
